@@ -207,6 +207,9 @@ struct Tree {
   std::vector<unsigned char> ubytesVec;
   std::vector<std::vector<char>> vecOfBytes;
   char rawBytes[4] = {};
+  signed char sRawBytes[4] = {};
+  unsigned char uRawBytes[4] = {};
+  std::vector<signed char> sbytesVec;
   int carr[3] = {};
   int carr2[2][2] = {};
   std::array<int, 3> sarr{};
@@ -252,6 +255,9 @@ struct Tree {
     archive << KeyValue("ubytesVec", ubytesVec);
     archive << KeyValue("vecOfBytes", vecOfBytes);
     archive << KeyValue("rawBytes", rawBytes);
+    archive << KeyValue("sRawBytes", sRawBytes);
+    archive << KeyValue("uRawBytes", uRawBytes);
+    archive << KeyValue("sbytesVec", sbytesVec);
     archive << KeyValue("carr", carr);
     archive << KeyValue("carr2", carr2);
     archive << KeyValue("sarr", sarr);
@@ -348,6 +354,9 @@ void RootContainers(const SerializationOptions& opt) {
   std::pair<int, std::string> pr; Round<TArchive>(pr, opt);
   int carr[3] = {}; Round<TArchive>(carr, opt);
   char bytes[4] = {}; Round<TArchive>(bytes, opt);
+  signed char sbytes[4] = {}; Round<TArchive>(sbytes, opt);
+  unsigned char ubytes[4] = {}; Round<TArchive>(ubytes, opt);
+  std::vector<signed char> vsc; Round<TArchive>(vsc, opt);
   Tree t; Round<TArchive>(t, opt);
   Flat f; Round<TArchive>(f, opt);
   External e; Round<TArchive>(e, opt);
